@@ -123,6 +123,16 @@ def iterate_programs():
     vt = {"k": "v", "n": 4, "of": t}
     main = {"nodes": [inp(t), inp(vt), {"op": "Iterate", "deps": [1, 2], "gdeps": [1]}], "out": 3}
     ps.append(("iter_general_muladd_4", {"graphs": [body, main], "main": 2}, [t, vt]))
+    # the body hands its current element on as the next state ("previous element" / adjacent differences): the returned
+    # state is an input node of the body, but not the state input (round-3 change C01_E: a pass-through fast path)
+    body = {"nodes": [inp(t), inp(t), nd("Subtract", [2, 1]), nd("CreateTuple", [2, 3])], "out": 4}
+    vt5 = {"k": "v", "n": 5, "of": t}
+    main = {"nodes": [inp(t), inp(vt5), {"op": "Iterate", "deps": [1, 2], "gdeps": [1]}], "out": 3}
+    ps.append(("iter_prev_element_5", {"graphs": [body, main], "main": 2}, [t, vt5]))
+    # ... and one that really passes its state through unchanged while emitting an output
+    body = {"nodes": [inp(t), inp(t), nd("Multiply", [2, 1]), nd("CreateTuple", [1, 3])], "out": 4}
+    main = {"nodes": [inp(t), inp(vt5), {"op": "Iterate", "deps": [1, 2], "gdeps": [1]}], "out": 3}
+    ps.append(("iter_state_passthrough_5", {"graphs": [body, main], "main": 2}, [t, vt5]))
     # a Call of a graph used twice
     callee = {"nodes": [inp(t), inp(t), nd("Multiply", [1, 2]), nd("Subtract", [3, 1])], "out": 4}
     main = {"nodes": [inp(t), inp(t), {"op": "Call", "deps": [1, 2], "gdeps": [1]}, {"op": "Call", "deps": [3, 1], "gdeps": [1]}], "out": 4}
@@ -172,7 +182,7 @@ def jobs(tier, seed):
     for name, p, its in iterate_programs():
         for oi, (ow, outs) in enumerate((([0, 1], [2]), ([1, 2], []), (["pub", 0], [0, 1]))):
             for mode in ("Simple", "Default", "Extreme"):
-                if tier == "quick" and (oi + len(mode)) % 2 == 1 and not name.endswith("_16"):
+                if tier == "quick" and (oi + len(mode)) % 2 == 1 and not name.endswith(("_16", "_5")):
                     continue
                 jid += 1
                 js.append({"id": jid, "name": name, "family": "iter", "prog": p, "owners": ow, "outs": outs, "mode": mode,
